@@ -88,6 +88,8 @@ def m_gccell_borrow(ex, st, callee, args):
 
 
 def release_guard(ex, st, g):
+    if len(g.fields) < 2:
+        return          # a borrow of a variable cell (models.m_pair_primitive): no flag modelled
     r = g.fields[1]
     cell = ex.read(st, r.cell, r.path)
     if isinstance(cell, Adt) and cell.ty == "GcCell":
@@ -237,6 +239,111 @@ def m_gc_default_vec(ex, st, callee, args):
     return [(None, new_gc(st, gccell(Adt("Vec", None, ()))))]
 
 
+def m_call_closure_value(ex, st, callee, args):
+    """<impl FnOnce(..) as FnOnce<(..)>>::call_once(closure, (args..)) in generic crate code: run the MIR item of the closure VALUE"""
+    from sym import Invoke
+    clo = args[0]
+    cv = _val(ex, st, clo) if isinstance(clo, Ref) else clo
+    if not (isinstance(cv, Adt) and cv.ty == "{closure}" and cv.variant):
+        raise Inconclusive("call of a closure value %r" % (cv,))
+    ex.closure_fn("{closure@none}")          # builds the index
+    fn = ex._closure_index.get(cv.variant)
+    if fn is None:
+        raise Inconclusive("no MIR item for closure %s" % cv.variant)
+    tup = args[1]
+    tup = _val(ex, st, tup) if isinstance(tup, Ref) else tup
+    params = list(tup.fields) if isinstance(tup, Adt) and tup.ty == "()" else [tup]
+    env = clo
+    if ex.mf.func(fn).locals[1].strip().startswith("&") and not isinstance(env, Ref):
+        st.nframe += 1
+        st.cells[("tmp", st.nframe)] = env
+        env = Ref(("tmp", st.nframe))
+    return [(None, Invoke(fn, [env] + params, lambda st2, val: val))]
+
+
+def m_dyn_deref(ex, st, callee, args):
+    """<dyn Deref<Target = T> as Deref>::deref on a trait object: dispatch on the concrete pointee (a reference, or a borrow guard)"""
+    v = _val(ex, st, args[0], depth=1)
+    if isinstance(v, Ref):
+        return [(None, v)]
+    if isinstance(v, Adt) and v.ty in ("GcCellRef", "GcCellRefMut"):
+        return [(None, v.fields[0])]
+    if isinstance(v, Adt) and v.ty == "Primitive" and isinstance(args[0], Ref):
+        # the executor collapses `&&T` built from `&*r`: the trait object already designates the target
+        return [(None, args[0])]
+    raise Inconclusive("dyn Deref on %r" % (v,))
+
+
+def m_vec_get(ex, st, callee, args):
+    """<[T]>::get / get_mut (usize) -> Option<&T>"""
+    ref, v = _vec_at(ex, st, args[0])
+    idx = scalar(ex, st, args[1])
+    n = len(v.fields)
+    out = [(idx.e == k, some(Ref(ref.cell, ref.path + (k,)))) for k in range(n)]
+    out.append((z3.UGE(idx.e, n), NONE))
+    return out
+
+
+def m_guard_map(ex, st, callee, args):
+    """GcCellRefMut::map(guard, |inner| -> &mut U): a guard for the part the closure selects"""
+    from sym import Invoke
+    g = args[0]
+    fn = ex.closure_fn(callee)
+    if fn is None or not (isinstance(g, Adt) and g.ty in ("GcCellRef", "GcCellRefMut")):
+        raise Inconclusive("guard map on %r" % (g,))
+    return [(None, Invoke(fn, [args[1], g.fields[0]], lambda st2, val: Adt(g.ty, None, [val, g.fields[1]])))]
+
+
+def m_vec_range_index(ex, st, callee, args):
+    """<Vec<T> as Index<Range*<usize>>>::index: a sub-slice view (bounds concrete on the path); std's panic contract"""
+    ref, v = _vec_at(ex, st, args[0])
+    r = _val(ex, st, args[1]) if isinstance(args[1], Ref) else args[1]
+    n = len(v.fields)
+
+    def conc(x):
+        c = z3.simplify(x.e)
+        if not z3.is_bv_value(c):
+            raise Inconclusive("symbolic slice bound")
+        return c.as_long()
+    lo, hi = 0, n
+    if r.ty == "Range":
+        lo, hi = conc(r.fields[0]), conc(r.fields[1])
+    elif r.ty == "RangeTo":
+        hi = conc(r.fields[0])
+    elif r.ty == "RangeFrom":
+        lo = conc(r.fields[0])
+    elif r.ty != "RangeFull":
+        raise Inconclusive("slice index %r" % (r,))
+    if lo > hi or hi > n:
+        return [(None, Panic("range end index %d out of range for slice of length %d" % (hi, n)))]
+    st.nframe += 1
+    key = ("view", st.nframe)
+    st.cells[key] = Adt("[]", None, v.fields[lo:hi])
+    return [(None, Ref(key))]
+
+
+def m_iter_rev(ex, st, callee, args):
+    it = args[0]
+    if not (isinstance(it, Adt) and it.ty == "SliceIter"):
+        raise Inconclusive("rev on %r" % (it,))
+    seq_ref, idx = it.fields
+    ref, v = _vec_at(ex, st, seq_ref)
+    i = z3.simplify(idx.e).as_long()
+    st.nframe += 1
+    key = ("view", st.nframe)
+    st.cells[key] = Adt("[]", None, tuple(reversed(v.fields[i:])))
+    return [(None, Adt("SliceIter", None, [Ref(key), bv("usize", 0)]))]
+
+
+def m_iter_into_iter(ex, st, callee, args):
+    return [(None, args[0])]
+
+
+def m_rev_next(ex, st, callee, args):
+    from models import m_iter_next
+    return m_iter_next(ex, st, callee, args)
+
+
 def m_clone_structural(ex, st, callee, args):
     """Clone of a value whose model is an immutable tree (Option<..>, String, Rc handles: the handle is the value)"""
     return [(None, _val(ex, st, args[0], depth=1) if isinstance(args[0], Ref) else args[0])]
@@ -284,6 +391,14 @@ def install(m):
         (r"^<Option<.*> as Clone>::clone$|^<Rc<.*> as Clone>::clone$|^<String as Clone>::clone$", m_clone_structural),
         (r"^<Vec<.*> as Index(Mut)?<usize>>::index(_mut)?$", m_vec_index),
         (r"^<Gc<GcCell<Vec<.*>>> as Default>::default$", m_gc_default_vec),
+        (r"^<impl Fn(Once|Mut)?\(.*\) -> .* as Fn(Once|Mut)?<\(.*\)>>::call(_once|_mut)?$", m_call_closure_value),
+        (r"^<dyn Deref<Target = .*> as Deref>::deref$", m_dyn_deref),
+        (r"^(core::)?slice::<impl \[.*\]>::(get|get_mut)::<usize>$|^Vec::<.*>::(get|get_mut)$", m_vec_get),
+        (r"^GcCellRef(Mut)?::<.*>::map::<", m_guard_map),
+        (r"^<Vec<.*> as Index<(std::ops::)?Range(To|From|Full)?(<usize>)?>>::index$|^(core::)?slice::index::<impl Index<(std::ops::)?Range(To|From|Full)?(<usize>)?> for \[.*\]>::index$", m_vec_range_index),
+        (r"^<std::slice::Iter<'_, .*> as Iterator>::rev$", m_iter_rev),
+        (r"^<Rev<std::slice::Iter<'_, .*>> as IntoIterator>::into_iter$", m_iter_into_iter),
+        (r"^<Rev<std::slice::Iter<'_, .*>> as Iterator>::next$", m_rev_next),
         (r"^Cell::<.*>::new$", m_cell_new),
         (r"^Cell::<.*>::get$", m_cell_get),
         (r"^Cell::<.*>::set$", m_cell_set),
